@@ -704,6 +704,19 @@ def imm_cases() -> list[tuple[str, callable, str, int]]:
         for wo in (False, True):
             for v in (8, 10):
                 cs.append((f"frame-locals({n},output={wo})v{v}", many_locals(n, wo), "app", v))
+    # slot immediates are one unsigned byte: reserved ids forming a run up to 255 next to compiler-numbered slots, at the capacity
+    def slot_capacity(lo, m, gap):
+        def th():
+            rs = [pt.ScratchVar(pt.TealType.uint64, i) for i in range(lo, 256) if i != gap]
+            fs = [pt.ScratchVar(pt.TealType.uint64) for _ in range(m)]
+            vs = rs + fs
+            return pt.Seq(*[v.store(pt.Int(i)) for i, v in enumerate(vs)], *[pt.Pop(v.load()) for v in vs[-2:]], pt.Approve())
+        return th
+    for lo in (3, 128, 250):
+        for dm in (-1, 0, 1, 2):
+            cs.append((f"slot-capacity(reserved {lo}..255, free {lo + dm})", slot_capacity(lo, lo + dm, None), "app", 6))
+        cs.append((f"slot-capacity(reserved {lo}..255 without 254, free {lo + 1})", slot_capacity(lo, lo + 1, 254), "app", 6))
+        cs.append((f"slot-capacity(reserved {lo}..255 without 254, free {lo + 2})", slot_capacity(lo, lo + 2, 254), "app", 6))
     for a, bb in ((0, 255), (255, 256), (256, 300), (3, 1000)):
         cs.append((f"Substring({a},{bb})", _val(lambda a=a, bb=bb: pt.Substring(pt.Txn.note(), I(a), I(bb))), "app", 6))
         cs.append((f"Substring({a},{bb})v2", _val(lambda a=a, bb=bb: pt.Substring(pt.Txn.note(), I(a), I(bb))), "sig", 2))
